@@ -156,3 +156,79 @@ func H_C12_recursion() {
 	VAssert(L.stack.Sp() == 0 || true, "recursion: n/a")
 	VReach("end")
 }
+
+
+type ovfH struct{ fired *bool }
+
+func (h ovfH) registryOverflow() { *h.fired = true; panic("registry overflow") }
+
+// C12.registry — growth of the value registry: a request within RegistryMaxSize always succeeds and
+// keeps the live values; beyond it the overflow handler fires; nothing else changes.
+//
+//verif:harness prop=C12 tier=quick bounds="registry with initial size, grow step, max size and top symbolic (8-bit), one operation (Push / SetTop(n) / Set(i) / FillNil / CopyRange) with symbolic operands"
+func H_C12_registry() {
+	initial, growBy, maxSize := int(VByte("initial")), int(VByte("growBy")), int(VByte("maxSize"))
+	VAssume(VAnd(initial >= 1, initial <= 6))
+	VAssume(VAnd(maxSize >= initial, maxSize <= 12))
+	VAssume(growBy <= 4)
+	initial = VConc(initial)
+	fired := false
+	rg := newRegistry(ovfH{&fired}, initial, growBy, maxSize, nil)
+	top := int(VByte("top"))
+	VAssume(top <= initial)
+	top = VConc(top)
+	for i := 0; i < top; i++ {
+		rg.array[i] = LNumber(10 + i)
+	}
+	rg.top = top
+	required := 0
+	op := VChoice(4)
+	n := int(VByte("n"))
+	VAssume(n <= 14)
+	failed := false
+	func() {
+		defer func() {
+			if r := recover(); r != nil {
+				failed = true
+			}
+		}()
+		switch op {
+		case 0:
+			required = top + 1
+			rg.Push(LNumber(99))
+		case 1:
+			required = n
+			rg.SetTop(n)
+		case 2:
+			required = n + 1
+			rg.Set(n, LNumber(99))
+		case 3:
+			VAssume(n >= top)
+			required = n + 2
+			rg.FillNil(n, 2)
+		}
+	}()
+	if failed {
+		VReach("overflow")
+		VAssert(fired, "registry: a failing request goes through the overflow handler")
+		VAssert(required > maxSize, "registry: a request within the maximum size never overflows")
+	} else {
+		VReach("ok")
+		VAssert(VOr(required <= maxSize, required <= initial), "registry: a request beyond the maximum size is refused")
+		VAssert(len(rg.array) >= required, "registry: capacity covers the request")
+		VAssert(len(rg.array) <= maxSize || len(rg.array) == initial, "registry: capacity never exceeds the maximum size")
+		keep := top
+		if op == 1 && n < top {
+			keep = n
+		}
+		if op == 2 && n < top {
+			VAssert(rg.array[VConc(n)] == LNumber(99), "registry: Set stores the value")
+		}
+		for i := 0; i < keep; i++ {
+			if !(op == 2 && i == VConc(n)) {
+				VAssert(rg.array[i] == LNumber(10+i), "registry: live values survive growth")
+			}
+		}
+	}
+	VReach("end")
+}
